@@ -39,6 +39,10 @@ inductive Ty where
       is read (`make([]T, count)`, 0 for append-only readers).  `ovh`: bytes charged per element
       actually read (slice growth, boxed element). -/
   | list (cw : Nat) (lim : Option Nat) (pre ovh : Nat) (e : Ty)
+  /-- var-uint count then the elements, read by `for i := 0; i < int(count); i++` (CRCProposal budgets
+      and custom-ID lists): a count of 2^63 or more is a negative `int`, the loop body never runs and the
+      reader goes on with an empty list.  Append-only, `ovh` as for `list`. -/
+  | listI (ovh : Nat) (e : Ty)
   /-- a `tw`-byte LE discriminant selecting the layout of what follows (`dflt` when not listed) -/
   | tagged (tw : Nat) (cases : List (Nat × Ty)) (dflt : Ty)
 
@@ -111,6 +115,7 @@ mutual
     | .pad1, _ => [1]
     | .struct fs, .struct vs => encodeFields fs vs
     | .list cw _ _ _ e, .list vs => encCount cw vs.length ++ encodeAllWith (encode e) vs
+    | .listI _ e, .list vs => encVarUint vs.length ++ encodeAllWith (encode e) vs
     | .tagged tw cs d, .tag t v =>
       leEnc tw t ++ (match encodeCases cs t v with | some b => b | none => encode d v)
     | _, _ => []
@@ -146,6 +151,12 @@ mutual
       | some (n, r) =>
         if overLimit lim n then R.fail
         else ((repeatDec (decodeA e) ovh n r).map .list).charge (pre * n)
+    | .listI ovh e, bs =>
+      match decVarUint bs with
+      | none => R.fail
+      | some (n, r) =>
+        if 2 ^ 63 ≤ n then R.ok 0 (.list []) r
+        else (repeatDec (decodeA e) ovh n r).map .list
     | .tagged tw cs d, bs =>
       match readLE tw bs with
       | none => R.fail
@@ -183,6 +194,7 @@ mutual
     | .struct fs, .struct vs => wfFields fs vs
     | .list cw lim _ _ e, .list vs =>
       !(overLimit lim vs.length) && decide (vs.length < (if cw = 0 then 2 ^ 64 else 256 ^ cw)) && allWith (wf e) vs
+    | .listI _ e, .list vs => decide (vs.length < 2 ^ 63) && allWith (wf e) vs
     | .tagged tw cs d, .tag t v =>
       decide (t < 256 ^ tw) && (match wfCases cs t v with | some b => b | none => wf d v)
     | _, _ => false
@@ -200,6 +212,7 @@ mutual
   def canon : Ty → Bool
     | .bool => false
     | .bool1 => false
+    | .listI _ _ => false
     | .pad1 => false
     | .struct fs => canonFields fs
     | .list _ _ _ _ e => canon e
@@ -226,6 +239,7 @@ mutual
     | .fail => 1
     | .struct fs => minSizeFields fs
     | .list cw _ _ _ _ => if cw = 0 then 1 else cw
+    | .listI _ _ => 1
     | .tagged tw cs d => tw + min (minSizeCases cs) (minSize d)
   def minSizeFields : List Ty → Nat
     | [] => 0
@@ -241,6 +255,7 @@ mutual
     | .varBytes _ => 36
     | .struct fs => densFields fs
     | .list _ _ pre ovh e => pre + ovh + dens e
+    | .listI ovh e => ovh + dens e
     | .tagged _ cs d => max (densCases cs) (dens d)
     | _ => 0
   def densFields : List Ty → Nat
@@ -258,6 +273,7 @@ mutual
     | .varBytes max => bufCost max
     | .struct fs => slackFields fs
     | .list _ lim pre _ e => pre * (lim.getD 0) + slack e
+    | .listI _ e => slack e
     | .tagged _ cs d => max (slackCases cs) (slack d)
     | _ => 0
   def slackFields : List Ty → Nat
@@ -274,6 +290,7 @@ mutual
   def bounded : Ty → Bool
     | .struct fs => boundedFields fs
     | .list _ lim pre _ e => decide (1 ≤ minSize e) && (pre == 0 || lim.isSome) && bounded e
+    | .listI _ e => decide (1 ≤ minSize e) && bounded e
     | .tagged _ cs d => boundedCases cs && bounded d
     | _ => true
   def boundedFields : List Ty → Bool
